@@ -25,7 +25,7 @@ type Region struct {
 
 // NewRegion maps a region holding a copy of data. align shifts the payload
 // start (0..7) by placing extra slack before it, while keeping its end at the guard.
-func NewRegion(data []byte, kind, prop string, align8 bool) (*Region, error) {
+func NewRegion(data []byte, kind, prop string, align int) (*Region, error) {
 	n := len(data)
 	pages := (n + pageSize - 1) / pageSize
 	if pages == 0 {
@@ -46,8 +46,8 @@ func NewRegion(data []byte, kind, prop string, align8 bool) (*Region, error) {
 	start := end - n
 	// 8-byte alignment of the start is what frozen views and dense words need;
 	// keep the end at the guard only when that preserves alignment.
-	if align8 && start%8 != 0 {
-		shift := start % 8
+	if align > 1 && start%align != 0 {
+		shift := start % align
 		start -= shift
 		end -= shift
 	}
@@ -64,6 +64,20 @@ func checksum(b []byte) uint64 {
 		h *= 1099511628211
 	}
 	return h
+}
+
+// Place re-fills a writable region with data so that it ends flush at the
+// trailing guard page (len(data) must not exceed the original payload length).
+func (r *Region) Place(data []byte) []byte {
+	end := len(r.mem) - pageSize
+	start := end - len(data)
+	if start < pageSize {
+		panic("simio: Place: data larger than region")
+	}
+	r.payload = r.mem[start:end:end]
+	copy(r.payload, data)
+	r.sum = checksum(r.payload)
+	return r.payload
 }
 
 // Bytes is the caller-owned slice handed to the library.
